@@ -1959,3 +1959,95 @@ func sharedConfigImmutable(c *an.Ctx, rule string, prefixes ...string) (examined
 	}
 	return examined
 }
+
+// builderTable is the reference wiring of the components in cmd's builder,
+// confirmed by reading the code: for a configuration literal built in a builder
+// method, the source each property-relevant field is filled from (suffix of the
+// source's access path).  A property's check selects the entries that concern it.
+var builderTable = map[string]map[string]string{
+	"initDNS|dnssvc.HandlersConfig": {
+		"Handler": ".fwdHandler", "Messages": ".messages", "Cloner": ".cloner", "FilterStorage": ".filterStorage", "FilteringGroups": ".filteringGroups",
+		"ServerGroups": ".serverGroups", "GeoIP": ".geoIP", "AccessManager": ".access", "RateLimit": ".rateLimit", "HashMatcher": ".hashMatcher",
+		"ProfileDB": ".profileDB", "BillStat": ".billStat", "QueryLog": "p0", "RuleStat": ".ruleStat", "DNSCheck": ".dnsCheck",
+		"DNSDB": ".dnsDB", "EDEEnabled": ".conf.Filters.EDEEnabled", "StructuredErrors": ".sdeConf", "Cache": ".conf.Cache"},
+	"initDNS|dnssvc.Config": {
+		"Handlers": "call:dnssvc.NewHandlers#0", "ConnLimiter": ".connLimit", "HandleTimeout": ".conf.DNS.HandleTimeout.Duration", "ServerGroups": ".serverGroups",
+		"ControlConf": ".controlConf", "Cloner": ".cloner", "NonDNS": ".webSvc"},
+	"initFilterStorage|filter/filterstorage.ConfigHashPrefix": {"Adult": ".adultBlocking", "Dangerous": ".safeBrowsing", "NewlyRegistered": ".newRegDomains"},
+	"initFilterStorage|filter/filterstorage.ConfigRuleLists": {
+		"IndexURL": ".env.FilterIndexURL.URL", "IndexMaxSize": ".conf.Filters.MaxSize", "MaxSize": ".conf.Filters.MaxSize",
+		"IndexRefreshTimeout": ".conf.Filters.IndexRefreshTimeout.Duration", "IndexStaleness": ".conf.Filters.RefreshIvl.Duration",
+		"RefreshTimeout": ".conf.Filters.RefreshTimeout.Duration", "Staleness": ".conf.Filters.RefreshIvl.Duration",
+		"ResultCacheCount": ".conf.Filters.RuleListCache.Size", "ResultCacheEnabled": ".conf.Filters.RuleListCache.Enabled"},
+	"initFilterStorage|filter/filterstorage.ConfigBlockedServices": {
+		"IndexURL": ".env.BlockedServiceIndexURL.URL", "IndexMaxSize": ".conf.Filters.MaxSize", "IndexStaleness": ".conf.Filters.RefreshIvl.Duration",
+		"ResultCacheCount": ".conf.Filters.RuleListCache.Size", "ResultCacheEnabled": ".conf.Filters.RuleListCache.Enabled", "Enabled": ".env.BlockedServiceEnabled"},
+	"initFilterStorage|filter/filterstorage.ConfigCustom": {"CacheCount": ".conf.Filters.CustomFilterCacheSize"},
+	"initFilterStorage|filter/filterstorage.Config":       {"CacheDir": ".env.FilterCachePath", "CacheManager": ".cacheManager"},
+	"newSafeSearchConfig|filter/filterstorage.ConfigSafeSearch": {
+		"URL": "p1.URL", "ID": "p2", "MaxSize": ".conf.Filters.MaxSize", "RefreshTimeout": ".conf.Filters.RefreshTimeout.Duration",
+		"Staleness": ".conf.Filters.RefreshIvl.Duration", "ResultCacheCount": ".conf.Filters.SafeSearchCacheSize"},
+	"initSafeBrowsing|filter/hashprefix.FilterConfig": {
+		"ReplacementHost": ".conf.SafeBrowsing.BlockHost", "Staleness": ".conf.SafeBrowsing.RefreshIvl.Duration", "RefreshTimeout": ".conf.SafeBrowsing.RefreshTimeout.Duration",
+		"CacheTTL": ".conf.SafeBrowsing.CacheTTL.Duration", "CacheCount": ".conf.SafeBrowsing.CacheSize", "MaxSize": "p3", "Cloner": ".cloner"},
+	"initAdultBlocking|filter/hashprefix.FilterConfig": {
+		"ReplacementHost": ".conf.AdultBlocking.BlockHost", "Staleness": ".conf.AdultBlocking.RefreshIvl.Duration", "RefreshTimeout": ".conf.AdultBlocking.RefreshTimeout.Duration",
+		"CacheTTL": ".conf.AdultBlocking.CacheTTL.Duration", "CacheCount": ".conf.AdultBlocking.CacheSize", "MaxSize": "p3", "Cloner": ".cloner"},
+	"initNewRegDomains|filter/hashprefix.FilterConfig": {
+		"ReplacementHost": ".conf.SafeBrowsing.BlockHost", "Staleness": ".conf.SafeBrowsing.RefreshIvl.Duration", "RefreshTimeout": ".conf.SafeBrowsing.RefreshTimeout.Duration",
+		"CacheTTL": ".conf.SafeBrowsing.CacheTTL.Duration", "CacheCount": ".conf.SafeBrowsing.CacheSize", "MaxSize": "p2", "Cloner": ".cloner"},
+	"initSafeBrowsing|agdservice.RefreshWorkerConfig":  {"Refresher": ".safeBrowsing", "Interval": ".conf.SafeBrowsing.RefreshIvl.Duration"},
+	"initAdultBlocking|agdservice.RefreshWorkerConfig": {"Refresher": ".adultBlocking", "Interval": ".conf.AdultBlocking.RefreshIvl.Duration"},
+	"initNewRegDomains|agdservice.RefreshWorkerConfig": {"Refresher": ".newRegDomains", "Interval": ".conf.SafeBrowsing.RefreshIvl.Duration"},
+	"initFilterStorage|agdservice.RefreshWorkerConfig": {"Refresher": ".filterStorage", "Interval": ".conf.Filters.RefreshIvl.Duration"},
+	"initProfileDB|agdservice.RefreshWorkerConfig":     {"Refresher": "call:profiledb.New#0", "Interval": ".conf.Backend.RefreshIvl.Duration"},
+	"initBillStat|agdservice.RefreshWorkerConfig":      {"Refresher": "call:billstat.NewRuntimeRecorder", "Interval": ".conf.Backend.BillStatIvl.Duration"},
+	"initRateLimiter|agdservice.RefreshWorkerConfig":   {"Interval": ".conf.RateLimit.Allowlist.RefreshIvl.Duration"},
+	"initProfileDB|profiledb.Config": {
+		"Storage": "call:backendpb.NewProfileStorage#0", "CacheFilePath": ".env.ProfilesCachePath", "FullSyncIvl": ".conf.Backend.FullRefreshIvl.Duration",
+		"FullSyncRetryIvl": ".conf.Backend.FullRefreshRetryIvl.Duration", "ResponseSizeEstimate": ".conf.RateLimit.ResponseSizeEstimate"},
+	"initProfileDB|backendpb.ProfileStorageConfig": {
+		"BindSet": ".bindSet", "APIKey": ".env.ProfilesAPIKey", "ResponseSizeEstimate": ".conf.RateLimit.ResponseSizeEstimate", "MaxProfilesSize": ".env.ProfilesMaxRespSize"},
+	"initRateLimiter|consul.AllowlistUpdaterConfig": {"Allowlist": "call:dnsserver/ratelimit.NewDynamicAllowlist", "ConsulURL": ".env.ConsulAllowlistURL.URL"},
+	"initRateLimiter|backendpb.RateLimiterConfig":   {"Allowlist": "call:dnsserver/ratelimit.NewDynamicAllowlist", "Endpoint": ".env.BackendRateLimitURL.URL", "APIKey": ".env.BackendRateLimitAPIKey"},
+	"initGeoIP|geoip.FileConfig": {
+		"ASNPath": ".env.GeoIPASNPath", "CountryPath": ".env.GeoIPCountryPath", "HostCacheCount": ".conf.GeoIP.HostCacheSize", "IPCacheCount": ".conf.GeoIP.IPCacheSize",
+		"AllTopASNs": "geoip.DefaultTopASNs", "CountryTopASNs": "geoip.DefaultCountryTopASNs"},
+	"initMsgConstructor|dnsmsg.ConstructorConfig": {
+		"Cloner": ".cloner", "StructuredErrors": ".sdeConf", "FilteredResponseTTL": ".conf.Filters.ResponseTTL.Duration", "EDEEnabled": ".conf.Filters.EDEEnabled"},
+	"queryLog|querylog.FileSystemConfig":           {"Path": ".env.QueryLogPath"},
+	"newBillStatUploader|backendpb.BillStatConfig": {"APIKey": ".env.BillStatAPIKey"},
+	"initBillStat|billstat.RuntimeRecorderConfig":  {"Uploader": "call:(*cmd.builder).newBillStatUploader#0"},
+}
+
+// builderWiring checks the selected entries of builderTable; select maps an
+// entry key ("method|config type") to the fields of it that matter to the
+// calling property (nil = all tabled fields).
+func builderWiring(c *an.Ctx, rule string, selectEntries map[string][]string) {
+	var keys []string
+	for k := range selectEntries {
+		keys = append(keys, k)
+	}
+	sort.Strings(keys)
+	for _, k := range keys {
+		full, ok := builderTable[k]
+		if !ok {
+			c.Und(rule, "builder table "+k, token.NoPos, "no such entry in the builder table")
+			continue
+		}
+		want := full
+		if fields := selectEntries[k]; fields != nil {
+			want = map[string]string{}
+			for _, f := range fields {
+				w, ok := full[f]
+				if !ok {
+					c.Und(rule, "builder table "+k+" "+f, token.NoPos, "no such field in the builder table")
+					continue
+				}
+				want[f] = w
+			}
+		}
+		i := strings.Index(k, "|")
+		checkFieldMap(c, rule, "cmd.(*builder)."+k[:i], k[i+1:], want)
+	}
+}
